@@ -57,3 +57,31 @@ Example C11_rank_instance :
   let p := fun x => 1000 * x + 7 in
   eval_f 20 (rename p f) = option_map (bmap p) (eval_f 20 f) /\ eval_f 20 f <> None.
 Proof. vm_compute. split; [reflexivity|discriminate]. Qed.
+
+(** the round trip: exporting the order with -r and feeding it back with -o reproduces the identical table - header, rows,
+    -v lines and the -r list - for every formula, every first ordering file (or none), every -f / -c / -m.  The exported list is
+    taken as the ordering the second run reads (hypothesis 2: the file of names lexes back to those names); the second run
+    numbers the variables by their position in the first run's order, an order isomorphism on the variables of the text, so
+    the evaluated diagram is the first one renamed (C11_rank_iso with monotonicity on the diagram's variables only), and
+    retain, model and both printers commute with such a renaming.  (That the second run answers at all is its third
+    hypothesis; for fixed-point-free formulas evaluation always answers, C12_eval.) *)
+From Rsbdd Require Import Cli.RoundTrip.
+Theorem C11_roundtrip fuel fuel' uc o ordfile1 txt out1 otxt2 out2 :
+  cli fuel uc o ordfile1 txt = CliOk out1 ->
+  ordering_of_file uc otxt2 = Done (number_from 0 (out_order out1)) ->
+  cli fuel' uc o (Some otxt2) txt = CliOk out2 ->
+  out_header out2 = out_header out1 /\ out_rows out2 = out_rows out1 /\ out_true out2 = out_true out1 /\ out_order out2 = out_order out1.
+Proof. exact (RoundTrip.C11_roundtrip fuel fuel' uc o ordfile1 txt out1 otxt2 out2). Qed.
+Theorem C11_rank_iso_on (p q : nat -> nat) : (forall x, q (p x) = x) -> forall n m f b1 b2, nofsub f ->
+  eval_f n f = Some b1 -> eval_f m (rename p f) = Some b2 ->
+  (forall x y, In x (support b1) -> In y (support b1) -> x < y -> p x < p y) -> b2 = bmap p b1.
+Proof. exact (RankIso.C11_rank_iso_on p q). Qed.
+Print Assumptions C11_roundtrip. Print Assumptions C11_rank_iso_on.
+(** the hypotheses are met by an actual round trip: "b & -a" prints the order b, a; the file "b<newline>a" reads back as that
+    ordering; the second run prints the same table *)
+Example C11_roundtrip_instance :
+  let uc := fun _ : N => UOther in let o := mkOptions Ops.TAny Ops.TAny false 1 in
+  let txt := (98 :: 32 :: 38 :: 32 :: 45 :: 97 :: nil)%N in let otxt2 := (98 :: 10 :: 97 :: nil)%N in
+  exists out1 out2, cli 20 uc o None txt = CliOk out1 /\ ordering_of_file uc otxt2 = Done (number_from 0 (out_order out1)) /\
+    cli 20 uc o (Some otxt2) txt = CliOk out2 /\ out_rows out2 = out_rows out1 /\ out_header out1 = ((98 :: nil) :: (97 :: nil) :: nil)%N.
+Proof. do 2 eexists. split; [vm_compute; reflexivity|]. split; [vm_compute; reflexivity|]. split; [vm_compute; reflexivity|]. split; reflexivity. Qed.
